@@ -211,7 +211,8 @@ func TestC07_Order(t *testing.T) {
 
 func genC07SQLCase(t *rapid.T) C06Case {
 	c := C06Case{
-		Cols:     []string{"k", "a"},
+		// the key column in any position of the declaration (statements name their columns)
+		Cols:     rapid.SampledFrom([][]string{{"k", "a"}, {"a", "k"}, {"b", "a", "k"}, {"a", "k", "b"}}).Draw(t, "cols"),
 		EPN:      rapid.SampledFrom([]int{2, 2, 3, 4, 8, 4096}).Draw(t, "epn"),
 		NKeys:    200,
 		KeyClass: true,
@@ -282,7 +283,7 @@ func runC07SQL(c C06Case, o *Obs) error {
 func init() { register("TestC07_SQL", runC07SQL) }
 
 func TestC07_SQL(t *testing.T) {
-	st := newStats(t, "C07", "TestC07_SQL", "tables with entries_per_node 2..4096 filled with 3-60 generated keys where every third key is derived from an earlier one (equal value in the other numeric representation, neighbour, same bytes in the other class), with deletes, NULL-key inserts, reconnects; after every statement outcome class and full contents, and for ORDER BY / = / < <= > >= queries the result sequence, must equal a native WITHOUT ROWID table (differential runner of C06); non-trivial = an equal-key INSERT refused while the tree has height >= 1")
+	st := newStats(t, "C07", "TestC07_SQL", "tables with entries_per_node 2..4096 and the key column first, last or in the middle of the declaration, filled with 3-60 generated keys where every third key is derived from an earlier one (equal value in the other numeric representation, neighbour, same bytes in the other class), with deletes, NULL-key inserts, reconnects; after every statement outcome class and full contents, and for ORDER BY / = / < <= > >= queries the result sequence, must equal a native WITHOUT ROWID table (differential runner of C06); non-trivial = an equal-key INSERT refused while the tree has height >= 1")
 	st.Assume = append(st.Assume, "empty TEXT keys are replaced (known finding K1 under C08)")
 	checkRapid(t, st, genC07SQLCase, runC07SQL)
 }
